@@ -40,10 +40,15 @@ func defaultRec() pageRec {
 }
 
 // nearStd reports the standard size whose dimensions are within 1 mm of (w,h) in this order.
-func nearStd(w, h float64) (document.PageSize, bool) {
+func nearStd(w, h float64) (document.PageSize, bool) { return nearStdWithin(w, h, 1) }
+
+// nearStdWithin: the same with another tolerance. A size is stored in twips; one that is outside the 1 mm tolerance by
+// less than the rounding of that unit may lie inside it once stored, so the implementation may report the standard size
+// up to 1 mm + half a twip.
+func nearStdWithin(w, h, tol float64) (document.PageSize, bool) {
 	for _, n := range stdNames {
 		d := stdSizes[n]
-		if math.Abs(w-d[0]) < 1 && math.Abs(h-d[1]) < 1 {
+		if math.Abs(w-d[0]) < tol && math.Abs(h-d[1]) < tol {
 			return n, true
 		}
 	}
@@ -77,6 +82,9 @@ func (rec pageRec) compare(g *document.PageSettings) (string, string) {
 			return what, fmt.Sprintf("custom size %.4fx%.4f, expected %.4fx%.4f", g.CustomWidth, g.CustomHeight, rec.W, rec.H)
 		}
 	default: // implementation reports a standard size for a custom request: allowed only within the 1 mm tolerance
+		if !isNear {
+			std, isNear = nearStdWithin(rec.W, rec.H, 1+lenTol) // ... up to the rounding of the storage unit
+		}
 		if !isNear || g.Size != std {
 			return "custom-reported-as-standard", fmt.Sprintf("custom size %.4fx%.4f is reported as %q", rec.W, rec.H, g.Size)
 		}
@@ -133,8 +141,8 @@ func (rec pageRec) compareSaved(b []byte, anySetter bool) (string, string) {
 			ew, eh = eh, ew
 		}
 		tol := lenTol
-		if _, near := nearStd(rec.W, rec.H); near && rec.Size == document.PageSizeCustom {
-			tol = 1.0
+		if _, near := nearStdWithin(rec.W, rec.H, 1+lenTol); near && rec.Size == document.PageSizeCustom {
+			tol = 1.0 + lenTol
 		}
 		if !closeTo(w, ew, tol) || !closeTo(h, eh, tol) {
 			what := "saved-page-dimensions"
